@@ -6,8 +6,34 @@ from .c09_plan import PROFILE, plans, ASSUME, enum_plans
 def run(tier, seed):
     mc, sim = plans(tier)
     ck = nc.run_property("C09", tier, seed, "Inv09", PROFILE, mc, sim, 1500 if tier == "thorough" else 240, ASSUME, enum_plan=enum_plans(tier))
+    # ---- schedules: one action under every thread schedule within the preemption bound -------------
+    from .. import schedscen, nodetrace as nt
+    P = 3 if tier == "thorough" else 2
+    runs, n = schedscen.explore_scenario(schedscen.c09_concurrent_double_submit, P)
+    res = nt.mon_batch(runs[0][0]["params"], [r["steps"] for r, _ in runs], "c09_sched")
+    for (r, sched), v in zip(runs, res):
+        for x in v.get("C09", []):
+            ck.violation(x["sig"] + ":schedule", "scenario c09_concurrent_double_submit under schedule %r: %s" % (sched, [nc.brief(e) for e in r["steps"][-1]["out"]]),
+                         {"sched_scenario": "c09_concurrent_double_submit", "schedule": sched})
+        if r["exits"]:
+            ck.note("thread exits in a schedule scenario (judged by C14): %r" % (r["exits"][:2],))
+    ck.cov["schedules_explored"] = n
+    ck.cov["schedule_preemption_bound"] = P
+    ck.cov["schedule_distinct_outcomes"] = len(runs)
     return ck.finish()
 
 
 def replay(path, seed):
+    import json
+    body = json.load(open(path))
+    if "sched_scenario" in (body.get("replay") or {}):
+        from .. import schedscen, explore, nodetrace as nt
+        rp = body["replay"]
+        r = getattr(schedscen, rp["sched_scenario"])(explore.Decisions(rp["schedule"]))
+        v = nt.mon_batch(r["params"], [r["steps"]], "c09_sched_replay")[0].get("C09", [])
+        print("replayed schedule: %s" % v)
+        if v:
+            print("VIOLATION property=C09 replay=%s" % path)
+            return 1
+        return 0
     return nc.replay_file("C09", path)
